@@ -44,7 +44,7 @@ def _targets(t):
 
 def stores(tree, attr: str) -> List[Store]:
     out = []
-    for n in ast.walk(tree):
+    for n in (tree if isinstance(tree, list) else ast.walk(tree)):
         if isinstance(n, ast.Assign):
             for tt in n.targets:
                 for t in _targets(tt):
